@@ -384,4 +384,34 @@ theorem flow_DecodeTargetReadyMessage : Gen.Flow.DecodeTargetReadyMessage = [
   "return"
 ] := rfl
 
+theorem flow_Listener_handleConnection : Gen.Flow.Listener_handleConnection = [
+  "shouldCloseConn := true",
+  "defer func",
+  "if shouldCloseConn",
+  "conn.Close()",
+  "end",
+  "end()",
+  "tcpConn, ok := conn.(*net.TCPConn)",
+  "if !ok",
+  "return",
+  "end",
+  "tunnelID, frameType, data, err := ReadFrame(tcpConn)",
+  "if err != nil",
+  "return",
+  "end",
+  "tunnelIDStr := TunnelIDToString(tunnelID)",
+  "switch frameType",
+  "case FrameTypeTargetReady",
+  "shouldCloseConn = false",
+  "l.handleTargetReady(ctx, tcpConn, tunnelIDStr, data)",
+  "case FrameTypeHTTPProxy",
+  "l.handleHTTPProxy(ctx, tcpConn, data)",
+  "case FrameTypeDNSQuery",
+  "l.handleDNSQuery(ctx, tcpConn, data)",
+  "case FrameTypeCommand",
+  "l.handleCommand(ctx, tcpConn, data)",
+  "default",
+  "end"
+] := rfl
+
 end Tunnox.C10.Ties
